@@ -55,7 +55,7 @@ func (r *rpT) UnmarshalResourcePath(segments []restlicodec.Reader) error {
 
 type qpT struct{}
 
-func (q *qpT) NewInstance() *qpT                                      { return new(qpT) }
+func (q *qpT) NewInstance() *qpT                                     { return new(qpT) }
 func (q *qpT) DecodeQueryParams(restlicodec.QueryParamsReader) error { return nil }
 
 // entT behaves like a generated record: its marshaler dereferences the receiver
@@ -89,7 +89,7 @@ type script struct {
 
 var sc script
 
-var errPlain = errors.New("plain failure \"quoted\"")
+var errPlain = errors.New("plain failure \"quoted\", disk 100% full (%s %d %v)")
 
 // act performs the scripted outcome; returns (isNil, err)
 func act(ctx *restli.RequestContext) (bool, error) {
@@ -450,7 +450,7 @@ func main() {
 					}
 				}
 			case "error":
-				if !strings.Contains(clientFields["message"], "plain failure") {
+				if !strings.Contains(clientFields["message"], errPlain.Error()) { // verbatim, including its percent signs
 					violation("C08/error-message-lost", fmt.Sprintf("client error message %q does not carry the error's message", clientFields["message"]), cs)
 				}
 			case "panic":
